@@ -304,13 +304,26 @@ pub struct ThreadCase {
     pub pre_fuel: u8,
     pub second_request_after: Option<u8>,
     pub jitter: Vec<u8>,
+    /// what the stream answers to every entry: 0 = Ok, 1 = Io, 2 = Validation, 3 = Ok/Io
+    /// alternating, 4 = Validation/Ok/Io cycling. Bounded completion is counted in entries the
+    /// writer POPPED and handed to the stream, whatever the stream said about them.
+    #[serde(default)]
+    pub fail_mode: u8,
 }
 
 pub fn check_thread(case: &ThreadCase) -> CaseResult {
     let cap = case.capacity.max(1) as usize;
     let log = Arc::new(EventLog::default());
     let gate = Gate::new(false);
-    let mut stream = BqStream::new(vec![], gate.clone(), log.clone());
+    let results = match case.fail_mode % 5 {
+        0 => vec![],
+        1 => vec![SRes::Io],
+        2 => vec![SRes::Validation],
+        3 => vec![SRes::Ok, SRes::Io],
+        _ => vec![SRes::Validation, SRes::Ok, SRes::Io],
+    };
+    let mut stream = BqStream::new(results, gate.clone(), log.clone());
+    stream.cycle = true;
     stream.jitter = case.jitter.clone();
     // 1 us flush interval: the writer reports HitDeadline every 32 pops
     let (q, handle) = super::c01::build_queue(cap, case.boxed, Duration::from_micros(1), stream);
@@ -429,6 +442,9 @@ pub fn check_thread(case: &ThreadCase) -> CaseResult {
     check_flush_barrier(&evs, cap)?;
     if case.before as usize > cap {
         classes.push("overflow-before-request");
+    }
+    if case.fail_mode % 5 != 0 && case.busy {
+        classes.push("busy-queue-over-a-failing-stream");
     }
     classes.sort();
     classes.dedup();
@@ -591,12 +607,12 @@ pub fn run(ctx: &mut Ctx) {
     ctx.explore(
         SubCfg::new(
             "c04-thread-level",
-            "real queue (typed/boxed, capacity 1-80, flush interval 1us so the writer reports HitDeadline every 32 pops), stream gated by fuel: n entries appended, some fuel, flush requested, then fuel granted one unit at a time while (busy) the producer appends 2 entries per unit so the queue never becomes empty and overflows; optional second request while the first is pending. Oracle: barrier over the event log for every completed flush (entries appended before the request written or displaced, stream flushed after them), completion within capacity+128 written entries when busy, a flush after shutdown is ready on first poll. Non-trivial = busy (never-empty) queue",
-            if q { 400 } else { 12_000 },
+            "real queue (typed/boxed, capacity 1-80, flush interval 1us so the writer reports HitDeadline every 32 pops), stream gated by fuel and answering every entry Ok, Io, Validation or a cycle of them: n entries appended, some fuel, flush requested, then fuel granted one unit at a time while (busy) the producer appends 2 entries per unit so the queue never becomes empty and overflows; optional second request while the first is pending. Oracle: barrier over the event log for every completed flush (entries appended before the request written or displaced, stream flushed after them), completion within capacity+128 written entries when busy, a flush after shutdown is ready on first poll. Non-trivial = busy (never-empty) queue",
+            if q { 1_200 } else { 30_000 },
         )
         .threads(ctx.tier.pick(4, 8))
         .shrink_iters(100)
-        .mandatory(&["busy-queue", "second-request-while-first-pending", "overflow-before-request"]),
+        .mandatory(&["busy-queue", "second-request-while-first-pending", "overflow-before-request", "busy-queue-over-a-failing-stream"]),
         || {
             (
                 prop_oneof![1u8..6, 20u8..80],
@@ -606,8 +622,9 @@ pub fn run(ctx: &mut Ctx) {
                 0u8..40,
                 prop::option::of(0u8..40),
                 prop::collection::vec(any::<u8>(), 0..6),
+                prop_oneof![3 => Just(0u8), 4 => 1u8..5],
             )
-                .prop_map(|(capacity, boxed, before, busy, pre_fuel, second_request_after, jitter)| ThreadCase {
+                .prop_map(|(capacity, boxed, before, busy, pre_fuel, second_request_after, jitter, fail_mode)| ThreadCase {
                     capacity,
                     boxed,
                     before,
@@ -615,6 +632,7 @@ pub fn run(ctx: &mut Ctx) {
                     pre_fuel,
                     second_request_after,
                     jitter,
+                    fail_mode,
                 })
         },
         check_thread,
